@@ -44,6 +44,8 @@ INVARIANT DivergenceDetectedBothSigns
 INVARIANT StreamConsumed
 INVARIANT CutReplay
 INVARIANT DeviationExplained
+INVARIANT BaseIndependent
+INVARIANT Discriminating
 INVARIANT InStep
 INVARIANT EmitRun
 CHECK_DEADLOCK FALSE
@@ -686,7 +688,7 @@ def replay_cases(tier):
 
     def case(**kw):
         c = dict(kind="drange", T=2, T2=2, D=3, stop=2, chk=0, tol4=0, cont=0, pert=[0, "none", [0, 0, 0]], rec=[], cut=-1,
-                 prop="", obj=0)
+                 prop="", obj=0, base=0, nano=0)
         c.update(kw)
         cases.append(c)
 
@@ -722,6 +724,30 @@ def replay_cases(tier):
                         case(T=2, T2=2 + cont, D=2, stop=-1, chk=1, tol4=tol4, cont=cont, pert=[s_, "vector", d],
                              rec=[1, 0], prop=pr, obj=ob)
                     n += 1
+    # the same in units of 1e-9 around recorded values of every magnitude: the criterion is
+    # |actual - expected| > tolerance whatever the value (tolerances 0, 1e-8, 0.5; an "ulp" = the
+    # neighbouring float, math.nextafter)
+    nscal = {0: [[0, 1], [0, -1], [1, 0], [-1, 0]],
+             10: [[5, 0], [-5, 0], [11, 0], [-11, 0], [500, 0], [-500, 0], [10, 0], [-10, 0]],
+             500000000: [[250000000, 0], [-250000000, 0], [500000000, 0], [-500000000, 0], [500001000, 0], [-500001000, 0],
+                         [499999000, 0], [-499999000, 0]]}
+    nvect = {0: [[1, 0, 0], [0, 0, -1]], 10: [[3, 4, 0], [-9, -12, 0], [0, 0, 11], [0, -9, 0], [500, 0, 0]]}
+    bases = (0, 1, -1, 1000, -1000, 1000000, -1000000)
+    for base in bases:
+        for tol in (0, 10, 500000000):
+            for d in nscal[tol]:
+                if tier == "quick" and tol == 500000000 and abs(d[0]) in (250000000, 499999000) and base not in (0, 1000):
+                    continue
+                props = SCALAR_PROPS if tier != "quick" else [SCALAR_PROPS[n % len(SCALAR_PROPS)]]
+                for pr in props:
+                    case(T=2, T2=2, D=2, stop=-1, chk=1, tol4=tol, cont=0, pert=[1 + n % 2, "scalar", [d[0], d[1], 0]], rec=[1, 0],
+                         prop=pr, obj=n % 2, base=base, nano=1)
+                n += 1
+        for tol in (0, 10):
+            for d in nvect[tol]:
+                case(T=2, T2=2, D=2, stop=-1, chk=1, tol4=tol, cont=0, pert=[1 + n % 2, "vector", d], rec=[1, 0],
+                     prop="velocity" if tier == "quick" or n % 2 else "angularVelocity", obj=n % 2, base=base, nano=1)
+                n += 1
     return cases
 
 
@@ -761,8 +787,13 @@ def lattice_simulator(pert):
                 if prop not in vals:
                     vals[prop] = None
             p = self.pert
-            if p and p["s"] == self.currentTime and self.objects.index(obj) == p["obj"]:
-                vals[p["prop"]] = vals[p["prop"]] + p["delta"]
+            if p and self.objects.index(obj) == p["obj"]:
+                if p.get("base") is not None:  # the value of this property throughout the run
+                    vals[p["prop"]] = p["base"]
+                if p.get("actual") is not None and p["s"] == self.currentTime:
+                    vals[p["prop"]] = p["actual"]
+                if p.get("delta") is not None and p["s"] == self.currentTime:
+                    vals[p["prop"]] = vals[p["prop"]] + p["delta"]
             return vals
 
     class LatticeSimulator(Simulator):
@@ -770,6 +801,39 @@ def lattice_simulator(pert):
             return LatticeSimulation(scene, pert=pert, **kw)
 
     return LatticeSimulator()
+
+
+def realise(case):
+    """The perturbation of a case in floating point: (simulator setting of the recording run,
+    of the replay run, verdict of |actual - expected| > tolerance evaluated on the very floats the
+    code will see).  Units: 1/4, or 1e-9 (nano) with an `ulp` = the neighbouring float."""
+    import math
+    from fractions import Fraction
+
+    from scenic.core.vectors import Vector
+
+    unit = Fraction(1, 10**9) if case["nano"] else Fraction(1, 4)
+    tol = float(case["tol4"] * unit)
+    d = case["pert"][2]
+    b = float(case["base"])
+    if case["pert"][1] == "scalar":
+        if case["nano"] or case["base"]:
+            base = b
+        else:
+            base = 0.0
+        actual = base + float(d[0] * unit)
+        if d[1]:
+            actual = math.nextafter(actual, math.inf if d[1] > 0 else -math.inf)
+        verdict = abs(actual - base) > tol
+    else:
+        base = Vector(b, 0.0, 0.0) if case["prop"] != "position" else None
+        delta = Vector(float(d[0] * unit), float(d[1] * unit), float(d[2] * unit))
+        if base is None:
+            return None, {"s": case["pert"][0], "prop": case["prop"], "obj": case["obj"], "delta": delta}, (delta.norm() > tol)
+        actual = base + delta
+        verdict = (actual - base).norm() > tol
+    common_ = {"s": case["pert"][0], "prop": case["prop"], "obj": case["obj"], "base": base}
+    return dict(common_, actual=None), dict(common_, actual=actual), verdict
 
 
 def replay_worker(item):
@@ -784,7 +848,7 @@ def replay_worker(item):
     from scenic.core.vectors import Vector
 
     out = {"ci": ci, "viol": [], "runs": 0, "agree": 0, "known_like": 0, "model_rec_mismatch": [], "sample": None,
-           "diverged": 0, "fresh_runs": 0, "trunc": 0}
+           "diverged": 0, "fresh_runs": 0, "trunc": 0, "rounding": 0, "nano_runs": 0}
     text, vals = replay_program(case["kind"], case["D"], case["stop"])
     if text not in _SIMS:
         _SIMS[text] = scenic.scenarioFromString(text, mode2D=False)
@@ -793,11 +857,9 @@ def replay_worker(item):
     random.seed(1000 + ci)
     scene, _ = sc.generate(maxIterations=10)
     g = scene.params["g"]
-    pert = None
+    pert = base_pert = None
     if case["pert"][1] != "none":
-        d = case["pert"][2]
-        delta = d[0] / 4.0 if case["pert"][1] == "scalar" else Vector(d[0] / 4.0, d[1] / 4.0, d[2] / 4.0)
-        pert = {"s": case["pert"][0], "prop": case["prop"], "obj": case["obj"], "delta": delta}
+        base_pert, pert, float_verdict = realise(case)
     ideal = {}
     impl = {}
     for r in runs:
@@ -818,12 +880,17 @@ def replay_worker(item):
     for key, r in sorted(ideal.items()):
         rec, recTerm, fresh = key
         rec_draws = list(rec) + ([case["stop"]] if recTerm == "behavior" else [])
+        if pert and case["chk"] and case["pert"][0] <= len(rec) and r["shouldDiverge"] != float_verdict:
+            # |actual - expected| lands on the other side of the tolerance after floating-point
+            # rounding (only possible exactly at the boundary): a don't-care, not run
+            out["rounding"] += 1
+            continue
         out["runs"] += 1
         rep = {"property": "C18", "part": "replay", "program": text, "case": case, "recorded_draws": rec_draws,
                "fresh_draws": list(fresh), "g": g}
         try:
             with watchdog(60), srng.Scripted(prefix=rec_draws, uniform_values=uv) as s1:
-                sim1 = lattice_simulator(None).simulate(scene, maxSteps=case["T"], enableDivergenceCheck=bool(case["chk"]))
+                sim1 = lattice_simulator(base_pert).simulate(scene, maxSteps=case["T"], enableDivergenceCheck=bool(case["chk"]))
         except _Timeout:
             out["viol"].append(("recording timed out", rep, None))
             continue
@@ -875,8 +942,10 @@ def replay_worker(item):
                 out["diverged"] += 1
             if fresh:
                 out["fresh_runs"] += 1
+            if case["nano"]:
+                out["nano_runs"] += 1
             if out["sample"] is None and (fresh or r["term"] == "DivergenceError"):
-                out["sample"] = {"program": text, "case": {k: case[k] for k in ("T", "T2", "chk", "tol4", "cont", "pert", "prop", "obj", "cut")},
+                out["sample"] = {"program": text, "case": {k: case[k] for k in ("T", "T2", "chk", "tol4", "cont", "pert", "prop", "obj", "cut", "base", "nano")},
                                  "recorded_draws": rec_draws, "fresh_draws": list(fresh), "replay": obs, "bytes": len(data)}
             continue
         known = None
@@ -886,7 +955,8 @@ def replay_worker(item):
             known = "divergence-negative"
             out["known_like"] += 1
         if r["shouldDiverge"]:
-            msg = (f"replay with {case['prop']} off by {case['pert'][2]}/4 (tolerance {case['tol4']}/4) at update "
+            u_ = "e-9" if case["nano"] else "/4"
+            msg = (f"replay with {case['prop']} = {case['base']} off by {case['pert'][2]}{u_} (tolerance {case['tol4']}{u_}) at update "
                    f"{case['pert'][0]}: expected {r['term'] if not case['cont'] else 'the recording to be abandoned'}, observed {obs['term']} {obs['acts']}")
         else:
             msg = f"replay differs from the recording: expected {rep['expected']}, observed {obs}"
@@ -942,7 +1012,7 @@ def replay_part(ck, tier):
     cases = replay_cases(tier)
     path = os.path.join(scratch(), "replay_cases.json")
     with open(path, "w") as f:
-        json.dump([{k: c[k] for k in ("T", "T2", "D", "stop", "chk", "tol4", "cont", "pert", "rec", "cut")} for c in cases], f)
+        json.dump([{k: c[k] for k in ("T", "T2", "D", "stop", "chk", "tol4", "cont", "pert", "rec", "cut", "base", "nano")} for c in cases], f)
     res = run_tlc("Replay", REPLAY_CFG, env={"CASES": path}, coverage=True, timeout=1200, heap="2g")
     ck.add_tlc("Replay", res)
     need = ["Update", "TimeLimit", "DrawRecorded", "DrawReplayed", "DrawFresh", "StartReplay"]
@@ -954,7 +1024,7 @@ def replay_part(ck, tier):
         runs[o["cid"] - 1].append(o)
     t1 = time.time()
     results = par_map(replay_worker, [(i, c, runs[i]) for i, c in enumerate(cases)])
-    tot = {k: 0 for k in ("runs", "agree", "diverged", "fresh_runs")}
+    tot = {k: 0 for k in ("runs", "agree", "diverged", "fresh_runs", "rounding", "nano_runs")}
     bad_model = []
     for r in results:
         for k in tot:
@@ -1007,7 +1077,7 @@ def replay(path):
         case = rep["case"]
         cpath = os.path.join(scratch(), "case.json")
         with open(cpath, "w") as f:
-            json.dump([{k: case[k] for k in ("T", "T2", "D", "stop", "chk", "tol4", "cont", "pert", "rec", "cut")}], f)
+            json.dump([{k: case.get(k, 0) for k in ("T", "T2", "D", "stop", "chk", "tol4", "cont", "pert", "rec", "cut", "base", "nano")}], f)
         res = run_tlc("Replay", REPLAY_CFG, env={"CASES": cpath}, timeout=600)
         runs = [o for o in res.outputs if o["sem"] != "ideal" or (o["rec"] + ([case["stop"]] if o["recTerm"] == "behavior" else []) == rep["recorded_draws"] and o["fresh"] == rep["fresh_draws"])]
         out = replay_worker((0, case, runs))
